@@ -30,7 +30,7 @@ func init() {
 			"with bytes allocated during the rejected call measured from runtime.MemStats against a control (the same number of incompressible bytes through the same wrapping): bound = control + 8 x limit + 4 MiB; metamorphic: genuine, non-conforming and corrupted messages presented raw and DEFLATE-compressed at a drawn level must give the same acceptance, data and error class; distinct = shape hash (family, limit, delta, entry point, padding family, level, outcome)",
 		Directed:   c12Directed,
 		Run:        c12Run,
-		MustHit:    []string{"family=boundary", "family=bomb", "family=metamorphic", "family=bomb-in-encrypted", "delta=-1", "delta=0", "delta=+1", "limit=unset", "limit=1", "limit=4096", "pad=after-root", "pad=inside-root", "alloc_measured", "router_peeked_first", "encoder=stored-blocks", "encoder=stored-blocks-text-clean"},
+		MustHit:    []string{"family=boundary", "family=bomb", "family=metamorphic", "family=bomb-in-encrypted", "delta=-1", "delta=0", "delta=+1", "limit=unset", "limit=1", "limit=4096", "pad=after-root", "pad=inside-root", "alloc_measured", "router_peeked_first", "encoder=stored-blocks", "encoder=stored-blocks-text-clean", "encrypted_plaintext_compressed"},
 		RandomRuns: map[string]int{"quick": 400, "thorough": 6000},
 		Assumptions: []string{"allocation bound is checked for rejected over-limit inputs only (an accepted document is legitimately parsed into a tree several times its size); stack and allocator slack are not measured",
 			"each worker process runs one goroutine, so TotalAlloc deltas belong to the call"},
@@ -68,6 +68,9 @@ func c12Directed(tier string) [][]uint64 {
 	}
 	for i := uint64(0); i < 40; i++ {
 		out = append(out, []uint64{2, i % 5, 0, i % 6, 0, i})
+	}
+	for i := uint64(0); i < 4; i++ {
+		out = append(out, []uint64{2, 0, 0, 0, 0, 6 + 7*i}) // compressed plaintext inside an EncryptedAssertion
 	}
 	// hand-made stored-block streams (limit unset, genuine / non-conforming message, every entry point)
 	for ep := uint64(0); ep < 6; ep++ {
@@ -379,7 +382,46 @@ func c12Run(r *core.Run) {
 
 	case "metamorphic":
 		// a message of the C08 / C03 / C09 workloads, raw and compressed at a drawn level
-		kind := sel % 6
+		kind := sel % 7
+		if kind == 6 {
+			// the plaintext of an EncryptedAssertion goes through the same "parse, else inflate" step as a
+			// top-level message: compressed or not, the outcome is the same
+			if limit != 0 && limit < 1<<20 {
+				r.Shape("metamorphic.na") // not "within the limit"
+				return
+			}
+			epE := []string{"ValidateEncodedResponse", "RetrieveAssertionInfo"}[sel/7%2]
+			mkEnc := func(compressed bool) string {
+				idp := &world.IdP{Name: "e"}
+				bt := core.NewGenTape(uint64(sel)+99, nil)
+				m := world.GenResponse(bt, idp, s.Fed, now, 1, false)
+				m.Sign = world.PlainSigOpts(s.IdPKey, s.IdPCert)
+				m.Assertions[0].Encrypt = &world.EncOpts{DataAlg: world.DataAlgs[sel%5], KeyAlg: world.KeyAlgs[0], Recipient: &world.Key(spKey).RSA.PublicKey,
+					Rand: core.NewDetReader(uint64(sel) + 5), CompressPlaintext: compressed}
+				x, err := idp.Issue(m, world.Layout{}, r.Sim.Now())
+				if err != nil {
+					r.HarnessError("issue: %v", err)
+				}
+				return x
+			}
+			xr, xc := mkEnc(false), mkEnc(true)
+			if r.Harness != "" {
+				return
+			}
+			r.Fault("recompress")
+			r.Probe("encrypted_plaintext_compressed")
+			or, dr := c12Call(s.Node, epE, world.B64([]byte(xr)))
+			oc, dc := c12Call(s.Node, epE, world.B64([]byte(xc)))
+			r.Steps += 2
+			r.Logf("metamorphic encrypted-plaintext ep=%s raw=%s compressed=%s", epE, or.Class(), oc.Class())
+			r.Shape(fmt.Sprintf("meta.encplain.%s.%s.%s", epE, or.Class(), oc.Class()))
+			r.Sample = obs("family", family, "message", "encrypted-plaintext", "entry_point", epE, "raw", or.Class(), "compressed", oc.Class())
+			if or.Panic == "" && oc.Panic == "" && (or.OK() != oc.OK() || world.ErrClass(or.Err) != world.ErrClass(oc.Err) || dr != dc) {
+				ctx["entry_point"], ctx["raw_err"], ctx["compressed_err"] = epE, fmt.Sprint(or.Err), fmt.Sprint(oc.Err)
+				r.Fail("transparent", "C12/compressed-plaintext-differs-from-raw/"+epE, ctx)
+			}
+			return
+		}
 		x := mkBase()
 		if x == "" {
 			return
